@@ -680,20 +680,47 @@ def check_chooser(ctx, b, group="FRESH", tag="chooser"):
                 taken_name = nm
     taken_ids = {i_ for i_, n_ in id_name.items() if n_ == taken_name}
     fresh_ids = {i_ for i_, n_ in id_name.items() if n_ == fresh_name}
-    # the while loop re-draws a candidate as long as it is taken or already chosen
-    loops = [n for n in walk(b["body"]) if n.get("k") == "Loop"]
+    # the search loop is left exactly when the candidate is neither taken nor already chosen: `while a || b { redraw }`, `loop { if !a && !b
+    # { break c } redraw }` and De Morgan variants are the same exit condition over the two membership tests
+    def truth(e, env):
+        e = strip(e)
+        k_ = e.get("k")
+        if k_ == "Binary" and e.get("op") in ("Or", "And"):
+            l_, r_ = truth(e["l"], env), truth(e["r"], env)
+            if l_ is None or r_ is None:
+                return None
+            return (l_ or r_) if e["op"] == "Or" else (l_ and r_)
+        if k_ == "Unary" and e.get("op") == "Not":
+            v_ = truth(e["e"], env)
+            return None if v_ is None else not v_
+        if k_ == "MethodCall" and e.get("method") == "contains":
+            rid = local_id_of(e["recv"])
+            return env["taken"] if rid in taken_ids else (env["fresh"] if rid in fresh_ids else None)
+        if k_ in ("DropTemps", "Paren", "Use"):
+            return truth(e["e"], env)
+        return None
     in_while = []
-    for lp in loops:
-        if lp.get("src") in ("While", "WhileLoop") or lp.get("desugar") in ("WhileLoop", "While"):
-            for c in walk(lp):
-                if c.get("k") == "If":
-                    cc = [x for x in walk(c["cond"]) if x.get("k") == "MethodCall" and x["method"] == "contains"]
-                    if cc:
-                        in_while = ["taken" if local_id_of(x["recv"]) in taken_ids else ("fresh" if local_id_of(x["recv"]) in fresh_ids else hq.render(x["recv"])) for x in cc]
-                        or_ = [x for x in walk(c["cond"]) if x.get("k") == "Binary" and x.get("op") == "Or"]
-                        in_while.append("||" if or_ else "?")
-                    break
-    ctx.add(group, tag + ":loop", sorted(x for x in in_while if x != "||") == ["fresh", "taken"] and "||" in in_while, ctx.site(b),
+    exits = None
+    for lp in [n for n in walk(b["body"]) if n.get("k") == "Loop" and n.get("src") != "ForLoop"]:
+        for c in walk(lp):
+            if c.get("k") != "If" or not [x for x in walk(c["cond"]) if x.get("k") == "MethodCall" and x["method"] == "contains"]:
+                continue
+            brk_then = any(x.get("k") == "Break" for x in walk(c["then"]))
+            brk_else = "else" in c and any(x.get("k") == "Break" for x in walk(c["else"]))
+            if brk_then == brk_else:
+                continue
+            table = {}
+            for ta in (False, True):
+                for fr in (False, True):
+                    v_ = truth(c["cond"], {"taken": ta, "fresh": fr})
+                    table[(ta, fr)] = None if v_ is None else (v_ if brk_then else not v_)
+            exits = table
+            in_while = sorted("%s%s:%s" % ("taken " if ta else "", "chosen" if fr else "", "exit" if table[(ta, fr)] else ("stay" if table[(ta, fr)] is False else "?")) for ta, fr in table)
+            break
+        if exits is not None:
+            break
+    ok_loop = exits is not None and exits == {(False, False): True, (False, True): False, (True, False): False, (True, True): False}
+    ctx.add(group, tag + ":loop", ok_loop, ctx.site(b),
             "a candidate is redrawn while it is in the taken names (`%s`) OR among the names already handed out (`%s`): %s" % (taken_name, fresh_name, in_while))
     # taken holds the name of every element of `variables`
     last = ev.last_env.get(taken_name, [None])[-1] if taken_name else None
